@@ -103,8 +103,29 @@ def _progs(tier: str) -> List[Dict[str, Any]]:
     return out
 
 
+def _fx_progs(tier: str) -> List[Dict[str, Any]]:
+    """tier A: the unit-scaling backend called directly on FX graphs emitted from the AST"""
+    from models.programs import chains
+
+    out: List[Dict[str, Any]] = []
+
+    def add(items: Any, sink: str = "sum") -> None:
+        out.append({"prog": {"items": items, "first": "x", "sink": sink, "root": "container", "dtype": "float64"}})
+
+    depth = 3 if tier == "quick" else 4
+    keys = SMALL if tier == "quick" else SMALL[:8]
+    for n, items in enumerate(chains(keys, depth)):
+        add(items, SINKS[n % 4])
+    body = ["linear:F_bias_kw", "gelu:F", "softmax:F", "sdpa:causal_kw", "tanh", "gate_softmax", "add_param"]
+    for a, b, c in itertools.product(body, repeat=3):
+        add([["op", a], ["res", [["op", b], ["op", c]], "skip_first"], ["op", "linear:nn"]])
+        add([["res", [["op", a], ["res", [["op", b]], "branch_first"]], "skip_first"], ["op", c], ["op", "add_scalar"]], "mse")
+        add([["res", [["op", a]], "skip_first"], ["res", [["op", b]], "skip_first"], ["res", [["op", c]], "branch_first"]], "tensor")
+    return out
+
+
 def cases(tier: str, seed: int) -> List[Dict[str, Any]]:
-    return [dict(c, kind="prog", seed=seed) for c in _progs(tier)]
+    return [dict(c, kind="prog", seed=seed) for c in _progs(tier)] + [dict(c, kind="fx", seed=seed) for c in _fx_progs(tier)]
 
 
 def _my_act(x: Any, approximate: str = "none") -> Any:
@@ -157,6 +178,27 @@ def run_case(case: Dict[str, Any]) -> Dict[str, Any]:
             grads["<input>"] = args[0].grad
         return y.detach(), grads
 
+    if case["kind"] == "fx":
+        from models.programs import to_fx
+
+        ident = "fx|" + ident
+        try:
+            gm = to_fx(prog, m)
+            backend = unit_scale(nn.Sequential()).backends[-1]  # the library's backend object
+            t = backend(gm, [])
+            y_imp, g_imp = run(m, t)
+        except Exception as e:  # noqa
+            v = exception_violation(e, ident)
+            v["msg"] += "\n" + src
+            return {"violations": [v], "steps": 1, "outcome": "raises"}
+        ref_m = copy.deepcopy(m)
+        for p_ in ref_m.parameters():
+            p_.grad = None
+        sem = UnitScaleSemantics({})
+        y_ref, g_ref = run(ref_m, lambda *a: Interp(prog, ref_m, sem).run(*a))
+        if any(not torch.equal(before[k], v) for k, v in m.state_dict().items()):
+            viol.append({"key": ident + "|original_modified", "msg": src})
+        return _compare(viol, ident, src, sem, y_imp, g_imp, y_ref, g_ref, nres)
     try:
         u = unit_scale(m, replace=replace) if replace else unit_scale(m)
         u.backends.append(lambda gm, ex: (captured.append(gm), gm)[1])
@@ -184,7 +226,11 @@ def run_case(case: Dict[str, Any]) -> Dict[str, Any]:
     ref_m.load_state_dict(u.state_dict())
     sem = UnitScaleSemantics(sem_replace)
     y_ref, g_ref = run(ref_m, lambda *a: Interp(prog, ref_m, sem).run(*a))
+    return _compare(viol, ident, src, sem, y_imp, g_imp, y_ref, g_ref, nres)
 
+
+def _compare(viol: List[Dict[str, str]], ident: str, src: str, sem: Any, y_imp: Any, g_imp: Any, y_ref: Any, g_ref: Any,
+             nres: int) -> Dict[str, Any]:
     def close(a: Any, b: Any) -> bool:
         scale = max(float(b.abs().max()), 1e-300) if b.numel() else 1.0
         return a.shape == b.shape and bool(((a - b).abs() <= 1e-11 * scale + 1e-11 * b.abs()).all())
